@@ -21,6 +21,9 @@ fi
 # is part of the fingerprint - checked: an identical copy under another path is recompiled), but the final binary has
 # one name in the shared directory, so build + copy run under a lock (trials may run side by side); the sources are
 # touched first and the build log must show mla being compiled, as a guard against linking another trial's mla.
+# every trial adds its own copies of the local crates to the shared cache (their paths differ): it reached 85 GB after
+# nine rounds, which made the sandbox too large to snapshot - drop it when it passes 15 GB
+if [ -d $TD ] && [ "$(du -s --block-size=1G $TD 2>/dev/null | cut -f1)" -gt 15 ]; then ( flock 9; rm -rf $TD/scaled $TD/prod ) 9> $TD/.lock; fi
 mkdir -p $TD
 build_fls="prod"
 for c in "$@"; do case $c in C07|C15|C16|C17|C18|C19|C20) ;; *) build_fls="scaled prod";; esac; done
